@@ -109,6 +109,7 @@ def case_copy(ctx, kind, route, case_seed, report=True):
     viol = []
     snap0 = H.snapshot(src)
     own0 = H.snapshot(src._parent) if kind == "Conformer" else None
+    hid0 = H.hidden_state(src)
     enc = H.encode_mol(src, I, ids)
     n = ids.count
     line = f"copy {n} {H.CLS_CODE[kind]} 0 0 - - - {enc}"
@@ -122,6 +123,9 @@ def case_copy(ctx, kind, route, case_seed, report=True):
     except Exception as e:
         viol.append(("C06:route-raised", f"{label} raised {type(e).__name__}: {str(e)[:80]}"))
         return line, None, None, viol, tag
+    hd = H.hidden_diff(hid0, H.hidden_state(src)) if route != "shallow" else ""
+    if hd:
+        viol.append(("C06:derivation-left-state-in-source", f"{label} left something in its source: {hd}"))
     ownerless = any(not a[9] for a in snap0["atoms"]) or any(not b[7] for b in snap0["bonds"])
     if route == "shallow" and ownerless:
         # atoms without a live owner: which of the objects that share them they name as parent is not defined
@@ -189,6 +193,7 @@ def case_copyas(ctx, kind, target, mode, case_seed, keywords=None):
             sources.append(m)
     snaps0 = [H.snapshot(s) for s in sources]
     own0 = [H.snapshot(o) for o in owners]
+    hids0 = [H.hidden_state(s) for s in sources]
     src_k = src.n_conformers if kind == "ConformerEnsemble" else None
     if keywords is not None:
         kw = H.make_keywords(rng, keywords)
@@ -239,6 +244,11 @@ def case_copyas(ctx, kind, target, mode, case_seed, keywords=None):
         d = H.snap_diff(s0, H.snapshot(s))
         if d:
             viol.append((f"C06:source-changed-by-derivation", f"{label} changed its source in {d[:3]}"))
+            break
+    for h0, s in zip(hids0, sources):
+        hd = H.hidden_diff(h0, H.hidden_state(s))
+        if hd:
+            viol.append(("C06:derivation-left-state-in-source", f"{label} left something in its source: {hd}"))
             break
     try:
         obs = H.obs_string(res, I)
@@ -325,6 +335,7 @@ def case_concat(ctx, kind, case_seed, pattern=None):
     viol = []
     snaps = [H.snapshot(o) for o in ops]
     own0 = [H.snapshot(o) for o in owners]
+    hids0 = [H.hidden_state(o) for o in pool]
     enc = " ".join(H.encode_mol(o, I, ids) for o in ops)
     n = ids.count
     use_or = len(ops) == 2 and kind == "Structure" and rng.below(2) == 0
@@ -337,6 +348,11 @@ def case_concat(ctx, kind, case_seed, pattern=None):
         return None, None, None, viol, tag
     if any(H.snapshot(o) != sn for o, sn in zip(ops + owners, snaps + own0)):
         viol.append(("C06:source-changed-by-derivation", f"{label} changed a source"))
+    for h0, o in zip(hids0, pool):
+        hd = H.hidden_diff(h0, H.hidden_state(o))
+        if hd:
+            viol.append(("C06:derivation-left-state-in-source", f"{label} left something in a source: {hd}"))
+            break
     line = f"concat {n} {H.CLS_CODE[H.clsname(res)]} 0 0 - - - {enc}"
     obs = H.obs_string(res, I)
     shared = H.shared_paths(res, pool)
@@ -384,6 +400,7 @@ def case_join(ctx, kind, case_seed):
     sn1, sn2 = H.snapshot(s1), H.snapshot(s2)
     enc = " ".join(H.encode_mol(s, I, ids) for s in (s1, s2))
     n = ids.count
+    hids0 = [H.hidden_state(s1), H.hidden_state(s2)]
     how = rng.choice(["object", "index", "label"])
     a1, a2 = {"object": (s1.atoms[i1], s2.atoms[i2]), "index": (i1, i2), "label": ("AP_one", "AP_two")}[how]
     label = f"{kind}.join (attachment points by {how}" + "".join(f", {k}=…" for k in kw) + ")"
@@ -397,6 +414,11 @@ def case_join(ctx, kind, case_seed):
         return None, None, None, viol, tag
     if H.snapshot(s1) != sn1 or H.snapshot(s2) != sn2:
         viol.append(("C06:source-changed-by-derivation", f"{label} changed a source"))
+    for h0, o in zip(hids0, (s1, s2)):
+        hd = H.hidden_diff(h0, H.hidden_state(o))
+        if hd:
+            viol.append(("C06:derivation-left-state-in-source", f"{label} left something in a source: {hd}"))
+            break
     sc = H._ints(H.scalars_of(res, I))
     bf = H._ints(H.bond_fields(res.bonds[-1], I)) if len(res.bonds) else "-"
     co = H._ints(H.array_codes(res.coords, I))
@@ -471,6 +493,144 @@ def case_parts(ctx, kind, case_seed):
     return None, None, None, viol, tag
 
 
+# ----------------------------------------------------------------------------------------------------------
+# derive - edit the source - derive again, on the same source objects
+# ----------------------------------------------------------------------------------------------------------
+def case_rederive(ctx, route, kind, case_seed, mode=None):
+    """route: ctor | pickle | deepcopy | cast | concat | join.  The result of the first derivation must not depend on what happens
+    to the source afterwards, the second derivation must be faithful to the source AS IT IS THEN, and no derivation may leave
+    anything (caches, marks) in its source: the full state of the source — instance attributes, slots, pickled bytes — is compared
+    before and after every derivation."""
+    import copy as _copy
+    import pickle as _pickle
+
+    import molli as ml
+
+    rng = common.Prng(case_seed)
+    mode = mode or rng.choice(["keep", "keep", "keep", "grow", "shrink", "bonds", "coords", "attrib"])
+    tag = {"case": "rederive", "route": route, "kind": kind, "case_seed": case_seed, "mode": mode}
+    viol = []
+    ap = route == "join"
+    nsrc = {"concat": rng.range(1, 3), "join": 2}.get(route, 1)
+    srcs = [H.make_source(rng, kind, ml, ap=ap) for _ in range(nsrc)]
+    pattern = list(range(nsrc)) + ([rng.below(nsrc)] if route == "concat" and rng.below(2) else [])
+    target = rng.choice([c for c in H.CLASSES if c != ("Molecule" if kind == "Conformer" else kind)]) if route == "cast" else None
+    aps = [s.atoms[-1] for s in srcs] if ap else []
+
+    def derive():
+        with warnings.catch_warnings():
+            warnings.simplefilter("ignore")
+            if route == "ctor":
+                return ml.Molecule(srcs[0]) if kind == "Conformer" else type(srcs[0])(srcs[0])
+            if route == "pickle":
+                return _pickle.loads(_pickle.dumps(srcs[0]))
+            if route == "deepcopy":
+                return _copy.deepcopy(srcs[0])
+            if route == "cast":
+                return getattr(ml, target)(srcs[0])
+            if route == "concat":
+                return getattr(ml, kind).concatenate(*[srcs[i] for i in pattern])
+            return getattr(ml, kind).join(srcs[0], srcs[1], aps[0], aps[1])
+
+    def expected():
+        sn = [H.snapshot(s) for s in srcs]
+        if route in ("ctor", "pickle", "deepcopy"):
+            return H.owned(sn[0])
+        if route == "cast":
+            shapes = H.target_shapes(kind, target, srcs[0].n_atoms, srcs[0].n_conformers if kind == "ConformerEnsemble" else None, {})
+            return H.expected_cast(H.owned(sn[0]), kind, target, {}, shapes)
+        if route == "concat":
+            e = expected_concat([sn[i] for i in pattern])
+            e["arrays"] = e["arrays"][: H.SLOTS[kind]]
+            return e
+        i1, i2 = (next(i for i, a in enumerate(s.atoms) if a is p) for s, p in zip(srcs, aps))
+        e = expected_join(sn[0], sn[1], i1, i2)
+        return e
+
+    def faithful(res, label):
+        rs, exp = H.snapshot(res), expected()
+        if route == "join":
+            ok = rs["atoms"] == exp["atoms"] and rs["bonds"][:-1] == exp["bonds"] and rs["bonds"][-1][:2] == exp["newbond"] and \
+                (exp["charges"] is None or (len(rs["arrays"]) > 1 and tuple(rs["arrays"][1][2]) == tuple(exp["charges"][2])))
+            d = [] if ok else ["atoms / bonds / charges"]
+        elif route == "concat":
+            d = [k for k in ("atoms", "bonds", "charge", "mult") if rs[k] != exp[k]]
+            if [(a[0], tuple(a[1]), a[2]) for a in rs["arrays"]] != [(a[0], tuple(a[1]), a[2]) for a in exp["arrays"]]:
+                d.append("arrays")
+        else:
+            d = H.snap_diff(exp, rs)
+        if d:
+            viol.append((f"C06:product-differs-from-sources:{'fields' if route in ('concat', 'join') else component(d[0])}",
+                         f"{label}: the result is not the source as it is now: {d[:3]}"))
+
+    def derivation(label):
+        snaps = [H.snapshot(s) for s in srcs]
+        hid = [H.hidden_state(s) for s in srcs]
+        try:
+            res = derive()
+        except Exception as e:
+            viol.append(("C06:route-raised", f"{label} raised {type(e).__name__}: {str(e)[:80]}"))
+            return None
+        for s, sn, h in zip(srcs, snaps, hid):
+            if H.snapshot(s) != sn:
+                viol.append(("C06:source-changed-by-derivation", f"{label} changed a source in {H.snap_diff(sn, H.snapshot(s))[:3]}"))
+                break
+            hd = H.hidden_diff(h, H.hidden_state(s))
+            if hd:
+                viol.append(("C06:derivation-left-state-in-source", f"{label} left something in its source: {hd}"))
+                break
+        faithful(res, label)
+        return res
+
+    base = f"{route}{'->' + target if target else ''} of {kind}{' ' + str(pattern) if route == 'concat' else ''}"
+    r1 = derivation(base + " (first)")
+    if r1 is None:
+        return None, None, None, viol, tag
+    r1_snap = H.snapshot(r1)
+    edits = []
+    protect = []
+    if ap:
+        for s, p in zip(srcs, aps):
+            protect += [p] + list(s.connected_atoms(p))
+    for s in srcs:
+        if s is srcs[0] or rng.below(2):
+            try:
+                edits.append(H.count_edit(rng, s, ml, mode, protect))
+            except Exception as e:
+                edits.append(f"edit raised {type(e).__name__}")
+    tag["edits"] = edits
+    if H.snapshot(r1) != r1_snap:
+        viol.append(("C06:copy-changed-by-editing-source:fields", f"{base}: the edit {edits} of the source changed the first result"))
+    r2 = derivation(base + f" (again, after {edits})")
+    if r2 is None:
+        return None, None, None, viol, tag
+    if H.snapshot(r1) != r1_snap:
+        viol.append(("C06:copy-changed-by-editing-source:fields", f"{base}: deriving again changed the first result"))
+    # the second derivation goes to the model as an ordinary request
+    I, ids = H.Intern(), H.Ids()
+    line = None
+    try:
+        if route in ("ctor", "pickle", "deepcopy"):
+            enc = H.encode_mol(srcs[0], I, ids)
+            line = f"copy {ids.count} {H.CLS_CODE[kind]} 0 0 - - - {enc}"
+        elif route == "concat":
+            enc = " ".join(H.encode_mol(srcs[i], I, ids) for i in pattern)
+            line = f"concat {ids.count} {H.CLS_CODE[H.clsname(r2)]} 0 0 - - - {enc}"
+        elif route == "join":
+            enc = " ".join(H.encode_mol(s, I, ids) for s in srcs)
+            i1, i2 = (next(i for i, a in enumerate(s.atoms) if a is p) for s, p in zip(srcs, aps))
+            line = (f"join {ids.count} {H.CLS_CODE[H.clsname(r2)]} {i1} {i2} {H._ints(H.scalars_of(r2, I))} "
+                    f"{H._ints(H.bond_fields(r2.bonds[-1], I))} {H._ints(H.array_codes(r2.coords, I))} {enc}")
+        obs = H.obs_string(r2, I) if line else None
+        shared = H.shared_paths(r2, srcs) if line else None
+    except Exception:
+        line, obs, shared = None, None, None
+    sh = H.shared_paths(r2, srcs) + H.shared_paths(r2, [r1])
+    if sh:
+        viol.append((f"C06:copy-shares-state:{component(sh[0])}", f"{base} (again): {sh[:3]}"))
+    return line, obs, shared, viol, tag
+
+
 def run_case(ctx, t):
     H.FORCE.clear()
     H.FORCE.update(t.get("force", []))
@@ -482,6 +642,8 @@ def run_case(ctx, t):
 
 def _run_case(ctx, t):
     c = t["case"]
+    if c == "rederive":
+        return case_rederive(ctx, t["route"], t["kind"], t["case_seed"], t.get("mode"))
     if c == "parts":
         return case_parts(ctx, t["kind"], t["case_seed"])
     if c == "copy":
@@ -522,6 +684,8 @@ def plan_round(rng):
                             "kw": [rng.choice(H.keyword_names(target))]})
         out.append({"case": "copyas", "kind": kind, "target": rng.choice(H.CLASSES), "mode": "atoms", "case_seed": seed()})
         out.append({"case": "parts", "kind": kind, "case_seed": seed()})
+        for route in ("ctor", "pickle", "deepcopy", "cast"):
+            out.append({"case": "rederive", "route": route, "kind": kind, "case_seed": seed()})
     out.append({"case": "copyas", "kind": "Molecule", "target": "ConformerEnsemble", "mode": "enslist", "case_seed": seed()})
     for kind in ("Structure", "Molecule"):
         for _ in range(4):
@@ -530,6 +694,10 @@ def plan_round(rng):
         out.append({"case": "concat", "kind": kind, "case_seed": seed(), "pattern": [0, 1, 0, 2]})
         for _ in range(2):
             out.append({"case": "join", "kind": kind, "case_seed": seed()})
+        for mode in ("keep", "keep", None, None):
+            out.append({"case": "rederive", "route": "concat", "kind": kind, "case_seed": seed(), "mode": mode})
+        for mode in ("keep", None):
+            out.append({"case": "rederive", "route": "join", "kind": kind, "case_seed": seed(), "mode": mode})
     return out
 
 
@@ -556,7 +724,7 @@ def run(ctx):
 
     cases = []   # (line, obs, shared, tag)
     seen = set()
-    reps = 5 if ctx.quick() else 80
+    reps = 5 if ctx.quick() else 60
     plan = []
     cdir = common.VERIF / "corpus" / "C06"
     for p in sorted(cdir.glob("*.json")) if cdir.exists() else []:
